@@ -16,7 +16,10 @@
 (*                 kappa, and the same in all runs on ys with that kappa,     *)
 (*                 then the two values are equal.                             *)
 (*                                                                          *)
-(* (ABY3Priv checks this implication exactly on the small rings.)  A record   *)
+(* (Proof: kappa is the field `rand` of the view and o's value of n is a       *)
+(* function of the view; equal bags stay equal under conditioning on a field  *)
+(* and under taking a function of the view; two equal bags that are both      *)
+(* concentrated on one value are concentrated on the same value.)  A record   *)
 (* of IOEnv.TRACE is one (compiled program, observer o not among the output   *)
 (* parties, xs, ys differing only in secrets of the other parties): the       *)
 (* harness (detleak.rs) ran the compiled graph as three parties on the real   *)
